@@ -124,12 +124,12 @@ type spec struct {
 }
 
 var specs = map[string]spec{
-	"C02": {400, 8000, 3, "a trial = G goroutines x mixed single-key operations on few keys (optionally with table churn and a tiny maximum), history recorded at the call boundary and checked per key with porcupine; non-trivial = at least one key whose history has 2 or more overlapping operations; distinct = hash of the recorded history"},
-	"C04": {600, 20000, 3, "a trial = concurrent inserts/updates/reads/invalidations/SetMaximum on a bounded cache with PRNG delays between table update and write-buffer publish; judged after all calls returned, the executor is idle and one CleanUp; non-trivial = at least one automatic removal and at least 2 workers overlapping; distinct = hash of the recorded history"},
-	"C05": {600, 20000, 3, "same workload as C04; judged by the view equalities and the structural audit of the policy state at quiescence; non-trivial = at least one automatic removal and one update of a present key; distinct = hash of the recorded history"},
-	"C06": {600, 20000, 3, "a trial = concurrent writers/invalidators/readers with and without a size bound, sync and async executors; both handlers' logs checked for exactly-once, conservation, cause and per-key order; non-trivial = at least 5 deletion events; distinct = hash of the recorded history"},
-	"C14": {3000, 100000, 4, "a very short trial (2-8 goroutines x 5-50 operations incl. every eviction-lock holder) on a bounded cache with the default executor made countable; judged by the audit at quiescence WITHOUT any further cache call; non-trivial = at least one write published while maintenance was running or scheduled (hook log) ; distinct = hash of the recorded history"},
-	"C20": {300, 10000, 3, "a concurrent trial with a stats.Counter; totals compared with the recorded operations and events at quiescence; non-trivial = at least 20 counted lookups; distinct = hash of the recorded history"},
+	"C02": {1500, 30000, 3, "a trial = G goroutines x mixed single-key operations on few keys (optionally with table churn and a tiny maximum), history recorded at the call boundary and checked per key with porcupine; non-trivial = at least one key whose history has 2 or more overlapping operations; distinct = hash of the recorded history"},
+	"C04": {1800, 40000, 3, "a trial = concurrent inserts/updates/reads/invalidations/SetMaximum on a bounded cache with PRNG delays between table update and write-buffer publish; judged after all calls returned, the executor is idle and one CleanUp; non-trivial = at least one automatic removal and at least 2 workers overlapping; distinct = hash of the recorded history"},
+	"C05": {1800, 40000, 3, "same workload as C04; judged by the view equalities and the structural audit of the policy state at quiescence; non-trivial = at least one automatic removal and one update of a present key; distinct = hash of the recorded history"},
+	"C06": {1800, 40000, 3, "a trial = concurrent writers/invalidators/readers with and without a size bound, sync and async executors; both handlers' logs checked for exactly-once, conservation, cause and per-key order; non-trivial = at least 5 deletion events; distinct = hash of the recorded history"},
+	"C14": {12000, 300000, 4, "a very short trial (2-8 goroutines x 5-50 operations incl. every eviction-lock holder) on a bounded cache with the default executor made countable; judged by the audit at quiescence WITHOUT any further cache call; non-trivial = at least one write published while maintenance was running or scheduled (hook log) ; distinct = hash of the recorded history"},
+	"C20": {1200, 30000, 3, "a concurrent trial with a stats.Counter; totals compared with the recorded operations and events at quiescence; non-trivial = at least 20 counted lookups; distinct = hash of the recorded history"},
 }
 
 // Run executes the trials of one shard.
